@@ -1,5 +1,6 @@
 import TuModel.Model.Wire
 import TuModel.Model.Loader
+import TuModel.Model.LoaderU
 namespace Tu.Drive
 open Tu Tu.Wire
 
@@ -13,6 +14,11 @@ def loaderD (op : String) (args : List Nat) : Option String :=
         pure (n, skip, lim, ff, rank, w, invalid)) args with
       | some (n, skip, lim, ff, rank, w, invalid) =>
         if w == 0 || rank ≥ w then reject else
+        -- the line-by-line mirror of the adaptor chain with saturating `usize` arithmetic must give the
+        -- specification's answer (`C08u.selectChainU_eq`, `minItemsU_eq` prove it for every corpus that can exist;
+        -- here it is evaluated on the request)
+        if n < U64 && (selectChainU n skip lim ff rank w invalid != some (selectValid n skip lim ff rank w invalid) ||
+            minItemsU n skip lim != minItems n skip lim) then "refuse model-arithmetic" else
         ok (eNats (selectValid n skip lim ff rank w invalid) ++ [minItems n skip lim])
       | none => reject
   | "selectstall" => some <| match args with
